@@ -626,6 +626,13 @@ func (g *streamGen) nan() {
 	switch r.Intn(3) {
 	case 0:
 		bits := uint64(0x7ff0000000000000) | uint64(1+r.Int63n(1<<50))
+		if r.Intn(2) == 0 {
+			// boundary payloads: empty and full payload next to the quiet bit, the lowest and the highest payload bit alone
+			bits = uint64(0x7ff0000000000000) | []uint64{0, 1, 1 << 50, 1<<51 - 1, 1<<50 | 1, 2}[r.Intn(6)]
+			if sig && bits == 0x7ff0000000000000 {
+				bits |= 1 // a signalling NaN needs a non-empty payload (all zero would be infinity)
+			}
+		}
 		if !sig {
 			bits |= 1 << 51
 		}
